@@ -89,7 +89,11 @@ EncSpec(e, m) ==
 EncKey(e) == << e.op, e.ctx, IF e.op \in {"enc_req", "enc_resp"} THEN e.name ELSE "",
                 IF e.op = "enc_gen" THEN << e.half, e.kind >> ELSE << >>, e.args, e.pre.eid_resp >>
 
-IsRespEnc(e) == e.op = "enc_resp" \/ (e.op = "enc_gen" /\ e.half = "resp" /\ e.kind = "control")
+(* a control message is a response iff its Rq bit is clear - whichever half or writer produced it; the generic *)
+(* control writer with an empty body is left unconstrained as well                                             *)
+IsRespEnc(e) == \/ e.op = "enc_resp"
+                \/ (e.op = "enc_gen" /\ e.kind = "control" /\
+                     (e.half = "resp" \/ Len(GenRest(e.args)) = 0 \/ GenRest(e.args)[1] < 128))
 
 (* sp = EncSpec, total = packet length the spec expects, wr = the writer's   *)
 (* as-is outcome, body = observed bytes between the type byte and the PEC    *)
@@ -265,7 +269,8 @@ ProcessChecks3(e, m, p, r, dc, R, n, pecok, acc, xdevs, panicked) ==
       (* a response written by the processor is a packet the library encodes: C03-C05 bind it too *)
       IF ~panicked /\ n >= 0 /\ acc
       THEN Chk("C03", Len(R) = n /\ n >= 1 /\ PecGood(R), TRUE, {}) ELSE Skip("C03"),
-      IF ~panicked /\ n >= 0 /\ acc /\ p[7] < 128 /\ m.addr < 128
+      (* (the requester's SMBus address and EID must name the same requester, as in C12's domain) *)
+      IF ~panicked /\ n >= 0 /\ acc /\ p[7] < 128 /\ m.addr < 128 /\ p[4] \div 2 = p[7]
       THEN Chk("C04", Len(R) = n /\ n >= 4 /\ R[1] = p[7] * 2 /\ R[2] = 15 /\ R[3] = n - 4 /\ R[4] = m.addr * 2 + 1,
                TRUE, {}) ELSE Skip("C04"),
       IF ~panicked /\ n >= 0 /\ acc
